@@ -485,6 +485,21 @@ def run_faults(cfg, out, props=None, tag="C05", profiles_pool=None, extra=None):
                     run.c.inc("huge_message_scenarios")
                 c.updates_per_step = ups
                 w.step(30)
+            # --- the same content again and again: an application that sends identical payloads ("ready", b"", a heartbeat) as separate
+            #     guaranteed messages over a link whose round trip exceeds the resend interval; every send() is a message of its own
+            if run.open(c):
+                w.net.set(c2s=L.Policy(delay=(0.15, 0.16)), s2c=L.Policy(delay=(0.15, 0.16)))
+                same = r.choice([b"same!", b"", b"ok", b"heartbeat"])
+                for _k in range(10):
+                    for side in ("client", "server"):
+                        ep = c if side == "client" else run.sconn(c)
+                        if ep is not None:
+                            run.app.send(ep, side, 0, -1, api=r.choice(["send", "send_guaranteed"]), with_cb=True, payload=same)
+                    w.step(3)
+                run.c.inc("identical_payload_series")
+                w.step(int(0.8 / w.dt))
+                w.net.heal(0.004)
+                w.step(10)
             # --- a lazy reader: the client application calls update() every frame but collects its messages only after a long while;
             #     meanwhile the server sends it well over a thousand messages (some guaranteed, some with callbacks): every one of
             #     them is in the inbox when the application finally looks
@@ -707,7 +722,7 @@ def finish(tier, seed, results):
                          "worlds_keep_alive_longer_than_message_timeout", "sends_from_connect_callback", "sends_from_send_callback",
                          "worlds_with_counters_near_wrap", "shared_callback_batches", "aged_sessions_fragment_ids_reused",
                          "gap_scenarios_over_32_datagrams", "reordered_ack_path_streams", "handler_raised_in_message", "client_disconnects_with_retransmissions_in_flight",
-                         "second_session_messages_ok", "worlds_with_three_clients", "mtu_raised", "mtu_lowered", "callbacks_raised", "first_callback_of_datagram_raised", "sends_while_connecting", "client_sendto_failed", "long_haul_latency_above_half_a_second", "same_length_bursts_without_references", "huge_message_scenarios", "realnet_guaranteed_delivered", "lazy_reader_phases"], inconclusive)
+                         "second_session_messages_ok", "worlds_with_three_clients", "mtu_raised", "mtu_lowered", "callbacks_raised", "first_callback_of_datagram_raised", "sends_while_connecting", "client_sendto_failed", "long_haul_latency_above_half_a_second", "same_length_bursts_without_references", "huge_message_scenarios", "realnet_guaranteed_delivered", "lazy_reader_phases", "identical_payload_series"], inconclusive)
     cov = {
         "evaluations": m["evaluations"],
         "distinct_nontrivial": m["distinct_nontrivial"],
